@@ -30,15 +30,38 @@ func (c Cfg) Coq() string {
 // "stays open without data" (distinct from io.EOF).
 var ErrSentinel = errors.New("verif-sentinel: no more input")
 
+// ErrWouldBlock is returned by a scheduled source for a Read on the idle connection (it stands for "blocks for ever").
+var ErrWouldBlock = errors.New("verif-sentinel: read on idle connection would block")
+
 // Src yields its bytes (at most Chunk per Read when Chunk > 0, else as much as fits) and then Final.
+// With Sched set it follows a delivery schedule instead: the i-th Read returns the i-th chunk (cut to len(p), the
+// remainder comes with the next Read); after the last chunk every Read sets Blocked and returns ErrWouldBlock.
 type Src struct {
-	B     []byte
-	Final error
-	Chunk int
-	Given int
+	B       []byte
+	Final   error
+	Chunk   int
+	Given   int
+	Sched   [][]byte
+	UseSch  bool
+	Reads   int
+	Blocked bool
 }
 
 func (s *Src) Read(p []byte) (int, error) {
+	if s.UseSch {
+		for len(s.Sched) > 0 && len(s.Sched[0]) == 0 {
+			s.Sched = s.Sched[1:]
+		}
+		if len(s.Sched) == 0 {
+			s.Blocked = true
+			return 0, ErrWouldBlock
+		}
+		n := copy(p, s.Sched[0])
+		s.Sched[0] = s.Sched[0][n:]
+		s.Given += n
+		s.Reads++
+		return n, nil
+	}
 	if len(s.B) == 0 {
 		return 0, s.Final
 	}
@@ -100,7 +123,7 @@ func classify(err error, typ string) (coq, class string) {
 	if errors.As(err, &sb) {
 		return "TSmallBuffer", "smallbuf"
 	}
-	if errors.Is(err, ErrSentinel) || errors.Is(err, io.EOF) {
+	if errors.Is(err, ErrSentinel) || errors.Is(err, ErrWouldBlock) || errors.Is(err, io.EOF) {
 		return "TIoErr", "ioerr"
 	}
 	if err == fasthttp.ErrNeedMore {
@@ -130,7 +153,42 @@ func kvs(a []fasthttp.VerifKV) string {
 // ReadReq runs RequestHeader.Read over a bufio.Reader of size bsize on input delivered chunk bytes at a time (0 = at once),
 // the source failing with final afterwards.
 func ReadReq(cfg Cfg, bsize, chunk int, input []byte, final error) (o Out) {
-	src := &Src{B: append([]byte(nil), input...), Final: final, Chunk: chunk}
+	return readReqFrom(cfg, bsize, &Src{B: append([]byte(nil), input...), Final: final, Chunk: chunk})
+}
+
+func copyChunks(chunks [][]byte) [][]byte {
+	out := make([][]byte, len(chunks))
+	for i, c := range chunks {
+		out[i] = append([]byte(nil), c...)
+	}
+	return out
+}
+
+// idle wraps a try_res term into the idle_res the schedule produced.
+func idle(o Out, src *Src) Out {
+	if src.Blocked {
+		o.Coq = "(AsksMore " + hlib.Nat(src.Reads) + ")"
+		o.Class = "asksmore"
+	} else {
+		o.Coq = "(Answered " + o.Coq + " " + hlib.Nat(src.Reads) + ")"
+		o.Class = "answered-" + o.Class
+	}
+	return o
+}
+
+// ReadReqIdle runs RequestHeader.Read over a delivery schedule followed by an idle connection.
+func ReadReqIdle(cfg Cfg, bsize int, chunks [][]byte) Out {
+	src := &Src{Sched: copyChunks(chunks), UseSch: true}
+	return idle(readReqFrom(cfg, bsize, src), src)
+}
+
+// ReadRespIdle is the response counterpart.
+func ReadRespIdle(cfg Cfg, bsize int, chunks [][]byte) Out {
+	src := &Src{Sched: copyChunks(chunks), UseSch: true}
+	return idle(readRespFrom(cfg, bsize, src), src)
+}
+
+func readReqFrom(cfg Cfg, bsize int, src *Src) (o Out) {
 	br := bufio.NewReaderSize(src, bsize)
 	var h fasthttp.RequestHeader
 	if cfg.DisableNorm {
@@ -161,7 +219,10 @@ func ReadReq(cfg Cfg, bsize, chunk int, input []byte, final error) (o Out) {
 
 // ReadResp is the response counterpart.
 func ReadResp(cfg Cfg, bsize, chunk int, input []byte, final error) (o Out) {
-	src := &Src{B: append([]byte(nil), input...), Final: final, Chunk: chunk}
+	return readRespFrom(cfg, bsize, &Src{B: append([]byte(nil), input...), Final: final, Chunk: chunk})
+}
+
+func readRespFrom(cfg Cfg, bsize int, src *Src) (o Out) {
 	br := bufio.NewReaderSize(src, bsize)
 	var h fasthttp.ResponseHeader
 	if cfg.DisableNorm {
